@@ -1,112 +1,904 @@
 (* GenNamesClosed.v — every generated function refers only to names it binds (C15):
-   loaded names of the body are parameters, locals, closure cells, globals or builtins,
-   for every class shape.  Method: a flag-indexed list `need` of the names a body may
-   load; body loads are in `need` (component by component), `need` is available. *)
+   the names loaded by the body are parameters, locals, closure cells, globals (incl.
+   the functions of the same batch) or builtins, for every class shape.
+   Method: `pool` = params ++ (a flag-indexed part of the bound names) ++ globals ++
+   batch ++ builtins ++ closure, which is included in what is available; the fixed
+   components of a body are checked against `pool` by computation for every
+   combination of the shape's flags, the per-field components by lemmas that hold for
+   every field list. *)
 From DW Require Import PyStr CharFacts GenPyLit GenNames GenNamesBase.
 From Coq Require Import Lia.
 
 Definition avail (batch : list pstr) (f : fn) : list pstr := fn_locals f ++ allowed batch f.
 
-Lemma avail_params batch f x : In x (fn_params f) -> In x (avail batch f).
-Proof. intro H. unfold avail, fn_locals. apply in_or_app. left. apply in_or_app. now left. Qed.
-Lemma avail_binds batch f x : In x (s_binds (fn_body f)) -> In x (avail batch f).
-Proof. intro H. unfold avail, fn_locals. apply in_or_app. left. apply in_or_app. now right. Qed.
-Lemma avail_closure batch f x : In x (fn_closure f) -> In x (avail batch f).
-Proof. intro H. unfold avail, allowed. apply in_or_app. right. apply in_or_app. now left. Qed.
-Lemma avail_globals batch f x : In x (fn_globals f) -> In x (avail batch f).
-Proof. intro H. unfold avail, allowed. apply in_or_app. right. apply in_or_app. right. apply in_or_app. now left. Qed.
-Lemma avail_batch batch f x : In x batch -> In x (avail batch f).
-Proof. intro H. unfold avail, allowed. do 3 (apply in_or_app; right). apply in_or_app. now left. Qed.
-Lemma avail_builtin batch f x : In x py_builtins -> In x (avail batch f).
-Proof. intro H. unfold avail, allowed. do 4 (apply in_or_app; right). exact H. Qed.
+(* binds0: flag-indexed bound names (concrete); bvar: bound names that depend on the field list *)
+Definition poolv (binds0 bvar batch : list pstr) (f : fn) : list pstr :=
+  fn_params f ++ binds0 ++ fn_globals f ++ batch ++ py_builtins ++ fn_closure f ++ bvar.
+Definition pool (binds0 batch : list pstr) (f : fn) : list pstr := poolv binds0 [] batch f.
+
+Lemma poolv_avail binds0 bvar batch f :
+  incl binds0 (s_binds (fn_body f)) -> incl bvar (s_binds (fn_body f)) ->
+  incl (poolv binds0 bvar batch f) (avail batch f).
+Proof.
+  intros HB HV x Hx. unfold poolv in Hx. unfold avail, fn_locals, allowed.
+  repeat (apply in_app_or in Hx; destruct Hx as [Hx|Hx]).
+  - apply in_or_app. left. apply in_or_app. now left.
+  - apply in_or_app. left. apply in_or_app. right. now apply HB.
+  - apply in_or_app. right. apply in_or_app. right. apply in_or_app. now left.
+  - apply in_or_app. right. do 2 (apply in_or_app; right). apply in_or_app. now left.
+  - apply in_or_app. right. do 3 (apply in_or_app; right). exact Hx.
+  - apply in_or_app. right. apply in_or_app. now left.
+  - apply in_or_app. left. apply in_or_app. right. now apply HV.
+Qed.
+
+Lemma pool_avail binds0 batch f :
+  incl binds0 (s_binds (fn_body f)) -> incl (pool binds0 batch f) (avail batch f).
+Proof. intro H. apply poolv_avail; [exact H|apply incl_nil_l]. Qed.
+
+Lemma poolv_closure binds0 bvar batch f x : In x (fn_closure f) -> In x (poolv binds0 bvar batch f).
+Proof. intro H. unfold poolv. do 5 (apply in_or_app; right). apply in_or_app. now left. Qed.
+Lemma poolv_globals binds0 bvar batch f x : In x (fn_globals f) -> In x (poolv binds0 bvar batch f).
+Proof. intro H. unfold poolv. do 2 (apply in_or_app; right). apply in_or_app. now left. Qed.
+Lemma poolv_binds binds0 bvar batch f x : In x binds0 -> In x (poolv binds0 bvar batch f).
+Proof. intro H. unfold poolv. apply in_or_app; right. apply in_or_app. now left. Qed.
+Lemma poolv_bvar binds0 bvar batch f x : In x bvar -> In x (poolv binds0 bvar batch f).
+Proof. intro H. unfold poolv. do 6 (apply in_or_app; right). exact H. Qed.
+Lemma poolv_params binds0 bvar batch f x : In x (fn_params f) -> In x (poolv binds0 bvar batch f).
+Proof. intro H. unfold poolv. apply in_or_app. now left. Qed.
+Lemma poolv_batch binds0 bvar batch f x : In x batch -> In x (poolv binds0 bvar batch f).
+Proof. intro H. unfold poolv. do 3 (apply in_or_app; right). apply in_or_app. now left. Qed.
+Lemma poolv_builtin binds0 bvar batch f x : In x py_builtins -> In x (poolv binds0 bvar batch f).
+Proof. intro H. unfold poolv. do 4 (apply in_or_app; right). apply in_or_app. now left. Qed.
+Definition pool_closure binds0 := poolv_closure binds0 [].
+Definition pool_globals binds0 := poolv_globals binds0 [].
+Definition pool_binds binds0 := poolv_binds binds0 [].
+Definition pool_params binds0 := poolv_params binds0 [].
+Definition pool_batch binds0 := poolv_batch binds0 [].
+
+Lemma closed_from_poolv binds0 bvar batch f :
+  incl binds0 (s_binds (fn_body f)) -> incl bvar (s_binds (fn_body f)) ->
+  incl (s_loads (fn_body f)) (poolv binds0 bvar batch f) ->
+  incl (e_loads (fn_header f)) (allowed batch f) ->
+  closedb batch f = true.
+Proof.
+  intros HB HV HL HH. apply closedb_intro; [|exact HH].
+  intros x Hx. apply (poolv_avail binds0 bvar batch f HB HV). now apply HL.
+Qed.
+
+Lemma closed_from_pool binds0 batch f :
+  incl binds0 (s_binds (fn_body f)) ->
+  incl (s_loads (fn_body f)) (pool binds0 batch f) ->
+  incl (e_loads (fn_header f)) (allowed batch f) ->
+  closedb batch f = true.
+Proof. intros HB HL HH. apply (closed_from_poolv binds0 []); auto. apply incl_nil_l. Qed.
+
+(* concrete inclusion by computation (the right-hand side may end in an abstract tail) *)
+Ltac reflect_incl := apply forallb_mem_incl; vm_compute; reflexivity.
+Ltac smp := cbn -[S In incl pool poolv].
 
 (* ======================================================================== *)
 (* default engine, load                                                       *)
 (* ======================================================================== *)
-Definition has_paths (sh : v0l_shape) : bool := negb (match l_paths sh with [] => true | _ => false end).
+Definition v0l_has_paths (sh : v0l_shape) : bool := negb (match l_paths sh with [] => true | _ => false end).
 
-Definition v0l_need (sh : v0l_shape) : list pstr :=
-  map S ["o"; "init_kwargs"; "e"; "cls"; "py_case"; "field_to_parser"; "json_to_field"; "ExplicitNull";
-         "cls_fields"; "LOG"; "MissingData"; "MissingFields"; "dict"; "isinstance"; "TypeError"; "KeyError"]%string
-  ++ when (l_pre sh) [S "__pre_from_dict__"]
+Definition v0l_binds0 (sh : v0l_shape) : list pstr :=
+  map S ["init_kwargs"; "e"]%string
   ++ when (is_some (l_catch_all sh)) [S "catch_all"]
-  ++ when (has_paths sh) (map S ["safe_get"; "field"; "ParseError"]%string)
-  ++ when (l_loop sh) (map S ["json_key"; "py_field"; "field"; "ParseError"]%string)
-  ++ when (l_loop sh && l_raise_unknown sh) [S "UnknownKeysError"]
-  ++ v0l_defaults sh.
+  ++ when (v0l_has_paths sh) [S "field"]
+  ++ when (l_loop sh) (map S ["json_key"; "py_field"; "field"]%string).
 
-#[local] Hint Unfold v0l_body v0l_loop v0d_body env_init_body v1_body : gen_bodies.
-Ltac avail_search :=
-  first [ apply avail_params; cbn -[S In incl]; find_in
-        | apply avail_closure; cbn -[S In incl]; find_in
-        | apply avail_globals; cbn -[S In incl]; rewrite ?orb_true_r; cbn -[S In incl]; find_in
-        | apply avail_builtin; cbn -[S In incl]; find_in
-        | apply avail_binds; cbn -[S In incl]; autounfold with gen_bodies; cbn -[S In incl];
-          repeat rewrite sseq_binds; repeat rewrite flat_map_app; cbn -[S In incl];
-          repeat rewrite flat_map_app; cbn -[S In incl]; autounfold with gen_bodies; cbn -[S In incl]; find_in ].
-Ltac avail_walk := repeat first [ apply incl_nil_l | apply incl_cons; [ avail_search | ] ].
-
-Lemma v0l_need_avail sh : incl (v0l_need sh) (avail [] (v0_load_fn sh)).
+Lemma v0l_binds0_ok sh : incl (v0l_binds0 sh) (s_binds (fn_body (v0_load_fn sh))).
 Proof.
-  destruct sh as [paths loop pre ca tk ru]. unfold v0l_need, has_paths.
-  cbn [l_paths l_loop l_pre l_catch_all l_tag_key l_raise_unknown].
-  split_app.
-  - cbn [map]. avail_walk.
-  - destruct pre; cbn [when]; avail_walk.
-  - destruct ca as [[n b]|]; cbn [when is_some]; avail_walk.
-  - destruct paths as [|p ps]; cbn [when negb map]; avail_walk.
-  - destruct loop; cbn [when map]; avail_walk.
-  - destruct loop, ru; cbn [when andb]; avail_walk.
-  - intros x Hx. apply avail_closure. cbn [v0_load_fn fn_closure]. unfold v0l_closure.
-    do 3 (apply in_or_app; right). exact Hx.
+  destruct sh as [paths loop pre ca tk ru]. unfold v0l_binds0, v0l_has_paths.
+  cbn [fn_body v0_load_fn l_paths l_loop l_pre l_catch_all l_tag_key l_raise_unknown].
+  unfold v0l_body. cbn [l_paths l_loop l_pre l_catch_all l_tag_key l_raise_unknown].
+  rewrite sseq_binds. repeat rewrite flat_map_app. split_app.
+  - smp. incl_walk.
+  - destruct ca as [[n b]|]; smp; incl_walk.
+  - destruct paths as [|p ps]; smp; incl_walk.
+  - destruct loop; [|smp; incl_walk]. unfold v0l_loop.
+    destruct ru, tk, ca as [[n b]|]; smp; incl_walk.
 Qed.
 
-Lemma v0l_need_defaults sh x : In x (v0l_defaults sh) -> In x (v0l_need sh).
-Proof. intro H. unfold v0l_need. do 6 (apply in_or_app; right). exact H. Qed.
+Definition v0l_pool sh := pool (v0l_binds0 sh) [] (v0_load_fn sh).
 
-Lemma v0l_path_stmt_need sh f :
-  In f (l_paths sh) -> incl (s_loads (v0l_path_stmt f)) (v0l_need sh).
+Lemma v0l_path_stmt_pool sh f :
+  In f (l_paths sh) -> incl (s_loads (v0l_path_stmt f)) (v0l_pool sh).
 Proof.
-  intro Hf. assert (HP : has_paths sh = true).
-  { unfold has_paths. destruct (l_paths sh); [contradiction|reflexivity]. }
+  intro Hf. assert (HP : v0l_has_paths sh = true).
+  { unfold v0l_has_paths. destruct (l_paths sh); [contradiction|reflexivity]. }
+  assert (HP' : negb (match l_paths sh with [] => true | _ => false end) = true) by exact HP.
   unfold v0l_path_stmt.
   cbn [s_loads e_loads]. rewrite !eapps_loads, flat_map_app.
-  cbn -[S In incl strs]. rewrite strs_loads. cbn -[S In incl].
-  assert (HD : incl (flat_map e_loads (when (lf_has_default f) [EName (v0l_default_name f)])) (v0l_need sh)).
-  { destruct (lf_has_default f) eqn:E; cbn -[S In incl]; [|apply incl_nil_l].
-    apply incl_cons; [|apply incl_nil_l]. apply v0l_need_defaults.
+  cbn -[S In incl strs pool poolv]. rewrite strs_loads. smp.
+  assert (HD : incl (flat_map e_loads (when (lf_has_default f) [EName (v0l_default_name f)])) (v0l_pool sh)).
+  { destruct (lf_has_default f) eqn:E; smp; [|apply incl_nil_l].
+    apply incl_cons; [|apply incl_nil_l]. apply pool_closure. cbn [fn_closure v0_load_fn].
+    unfold v0l_closure. do 3 (apply in_or_app; right).
     unfold v0l_defaults. apply in_map. apply filter_In. auto. }
   revert HD. generalize (flat_map e_loads (when (lf_has_default f) [EName (v0l_default_name f)])).
-  intros D HD. unfold v0l_need. rewrite HP. cbn -[S In incl].
-  repeat (apply incl_cons; [find_in|]). unfold v0l_need in HD. rewrite HP in HD. exact HD.
+  intros D HD.
+  repeat (apply incl_cons; [|]); try exact HD.
+  - apply pool_binds. unfold v0l_binds0. smp. find_in.
+  - apply pool_binds. unfold v0l_binds0. rewrite HP. smp. find_in.
+  - apply pool_closure. smp. find_in.
+  - apply pool_binds. unfold v0l_binds0. rewrite HP. smp. find_in.
+  - apply pool_closure. cbn [fn_closure v0_load_fn]. unfold v0l_closure. rewrite HP'. smp. find_in.
+  - apply pool_params. smp. find_in.
 Qed.
 
-(* concrete inclusion by computation (the right-hand side may end in an abstract tail) *)
-Ltac reflect_incl := apply forallb_mem_incl; vm_compute; reflexivity.
-
-Lemma v0l_body_need sh : incl (s_loads (v0l_body sh)) (v0l_need sh).
+Lemma v0l_body_pool sh : incl (s_loads (v0l_body sh)) (v0l_pool sh).
 Proof.
-  unfold v0l_body. rewrite sseq_loads, !flat_map_app. split_app.
-  - unfold v0l_need. destruct (l_pre sh); cbn -[S In incl]; incl_walk.
-  - unfold v0l_need. cbn -[S In incl]; incl_walk.
-  - unfold v0l_need. destruct (l_catch_all sh) as [[n b]|]; cbn -[S In incl]; incl_walk.
-  - destruct (l_paths sh) as [|p ps] eqn:EP; [cbn; apply incl_nil_l|].
-    cbn [negb when flat_map s_loads app]. rewrite app_nil_r. split_app.
-    + rewrite sseq_loads, flat_map_map. apply incl_flat_map. intros f Hf.
-      apply v0l_path_stmt_need. now rewrite EP.
-    + unfold v0l_need, has_paths. rewrite EP. cbn -[S In incl]. incl_walk.
-    + apply incl_nil_l.
-  - unfold v0l_need, has_paths. destruct (l_loop sh); [|cbn; apply incl_nil_l].
-    unfold v0l_loop.
-    destruct (l_raise_unknown sh), (l_tag_key sh), (l_catch_all sh) as [[n b]|], (l_pre sh), (l_paths sh);
-      time "loop" reflect_incl.
-  - unfold v0l_need. destruct (l_catch_all sh) as [[n [|]]|]; cbn -[S In incl]; incl_walk.
-  - unfold v0l_need. cbn -[S In incl]; incl_walk.
+  destruct sh as [paths loop pre ca tk ru].
+  destruct paths as [|p ps].
+  - (* no path field: the whole function is concrete *)
+    unfold v0l_pool, pool, poolv, v0l_binds0, v0l_has_paths.
+    destruct loop, pre, ru, tk, ca as [[n [|]]|]; reflect_incl.
+  - set (sh := Build_v0l_shape (p :: ps) loop pre ca tk ru).
+    unfold v0l_body. cbn [l_paths l_loop l_pre l_catch_all l_tag_key l_raise_unknown sh negb when].
+    rewrite sseq_loads. repeat rewrite flat_map_app. split_app.
+    2,3,5,6,7: unfold v0l_pool, pool, poolv, v0l_binds0, v0l_has_paths, sh;
+               destruct loop, pre, ru, tk, ca as [[n [|]]|]; reflect_incl.
+    + unfold v0l_pool, pool, poolv, v0l_binds0, v0l_has_paths, sh;
+        destruct loop, pre, ru, tk, ca as [[n [|]]|]; reflect_incl.
+    + cbn [flat_map s_loads app]. rewrite app_nil_r. split_app.
+      * rewrite sseq_loads, flat_map_map. apply incl_flat_map. intros f Hf.
+        apply (v0l_path_stmt_pool sh). exact Hf.
+      * unfold v0l_pool, pool, poolv, v0l_binds0, v0l_has_paths, sh;
+          destruct loop, pre, ru, tk, ca as [[n [|]]|]; reflect_incl.
+      * apply incl_nil_l.
 Qed.
 
 Theorem v0_load_closed sh : closedb [] (v0_load_fn sh) = true.
 Proof.
+  apply (closed_from_pool (v0l_binds0 sh)).
+  - apply v0l_binds0_ok.
+  - apply v0l_body_pool.
+  - cbn. apply incl_nil_l.
+Qed.
+
+(* ======================================================================== *)
+(* default engine / EnvWizard, dump                                           *)
+(* ======================================================================== *)
+Definition v0d_has_catch (sh : v0d_shape) : bool := existsb (fun f => is_catch (df_key f)) (d_fields sh).
+Definition v0d_binds0 (sh : v0d_shape) : list pstr :=
+  [S "result"] ++ when (v0d_has_paths sh) [S "paths"] ++ when (v0d_has_catch sh) [S "k"; S "v"].
+Definition v0d_bvar (sh : v0d_shape) : list pstr := mapi (fun i (_ : v0d_field) => skip_name i) (d_fields sh).
+Definition v0d_pool (sh : v0d_shape) : list pstr := poolv (v0d_binds0 sh) (v0d_bvar sh) [] (v0_dump_fn sh).
+
+Lemma in_nth_error {A} (x : A) l : In x l -> exists i, nth_error l i = Some x.
+Proof. apply In_nth_error. Qed.
+
+Lemma v0d_catch_binds sh x :
+  v0d_has_catch sh = true -> In x [S "k"; S "v"] ->
+  In x (flat_map s_binds (List.concat (mapi (v0d_field_stmt sh) (d_fields sh)))).
+Proof.
+  intros HC Hx. unfold v0d_has_catch in HC. apply existsb_exists in HC as (f & Hf & Hk).
+  destruct (in_nth_error f _ Hf) as (i & Hi).
+  apply in_flat_map.
+  assert (HS : exists s, In s (v0d_field_stmt sh i f) /\ In x (s_binds s)).
+  { unfold v0d_field_stmt. destruct (df_key f); cbn in Hk; try discriminate Hk.
+    eexists. split; [left; reflexivity|]. cbn [s_binds]. apply in_or_app. right. apply in_or_app. left.
+    apply in_or_app. now left. }
+  destruct HS as (s & Hs & Hxs). exists s. split; [|exact Hxs].
+  apply in_concat. exists (v0d_field_stmt sh i f). split; [|exact Hs].
+  exact (in_mapi (v0d_field_stmt sh) _ i f Hi).
+Qed.
+
+Lemma v0d_binds_ok sh :
+  incl (v0d_binds0 sh) (s_binds (fn_body (v0_dump_fn sh))) /\
+  incl (v0d_bvar sh) (s_binds (fn_body (v0_dump_fn sh))).
+Proof.
+  cbn [fn_body v0_dump_fn]. unfold v0d_body. rewrite sseq_binds. repeat rewrite flat_map_app.
+  split.
+  - unfold v0d_binds0. split_app.
+    + intros x Hx. apply in_or_app. right. apply in_or_app. left. exact Hx.
+    + destruct (v0d_has_paths sh); [|apply incl_nil_l]. intros x Hx.
+      do 2 (apply in_or_app; right). apply in_or_app. left. cbn in Hx |- *. tauto.
+    + destruct (v0d_has_catch sh) eqn:HC; [|apply incl_nil_l]. intros x Hx.
+      do 3 (apply in_or_app; right). apply in_or_app. left.
+      destruct (d_fields sh) as [|f0 fr] eqn:EF; [unfold v0d_has_catch in HC; rewrite EF in HC; discriminate HC|].
+      rewrite <- EF. repeat rewrite flat_map_app. do 2 (apply in_or_app; right).
+      apply v0d_catch_binds; [|exact Hx]. exact HC.
+  - unfold v0d_bvar. destruct (d_fields sh) as [|f0 fr] eqn:EF; [apply incl_nil_l|].
+    rewrite <- EF. intros x Hx.
+    do 3 (apply in_or_app; right). apply in_or_app. left.
+    repeat rewrite flat_map_app. apply in_or_app. left.
+    cbn [flat_map s_binds]. apply in_or_app. left. apply in_or_app. right. apply in_or_app. left.
+    apply in_or_app. left. exact Hx.
+Qed.
+
+(* membership facts that hold for every flag combination *)
+Lemma v0d_clo_base sh x :
+  In x (map S ["config"; "asdict"; "hooks"; "cls_to_asdict"]%string) -> In x (v0d_closure sh).
+Proof. intro H. unfold v0d_closure. apply in_or_app. now left. Qed.
+Lemma v0d_clo_env sh : d_env sh = true -> In (S "cls_dump_fn") (v0d_closure sh).
+Proof. intro H. unfold v0d_closure. rewrite H. apply in_or_app. right. apply in_or_app. left. now left. Qed.
+Lemma v0d_clo_skipv sh : dskip_closure (d_meta_skip sh) = true -> In (S "_skip_value") (v0d_closure sh).
+Proof. intro H. unfold v0d_closure. rewrite H. do 2 (apply in_or_app; right). apply in_or_app. left. now left. Qed.
+Lemma v0d_clo_sdv sh : dskip_closure (d_skip_defaults_if sh) = true -> In (S "_skip_defaults_value") (v0d_closure sh).
+Proof. intro H. unfold v0d_closure. rewrite H. do 3 (apply in_or_app; right). apply in_or_app. left. now left. Qed.
+Lemma v0d_clo_field sh i f y :
+  nth_error (d_fields sh) i = Some f -> In y (v0d_field_closure sh i f) -> In y (v0d_closure sh).
+Proof.
+  intros Hn Hy. unfold v0d_closure. do 6 (apply in_or_app; right). apply in_or_app. left.
+  exact (in_concat_mapi (v0d_field_closure sh) _ i f y Hn Hy).
+Qed.
+
+Lemma v0d_pool_closure sh x : In x (v0d_closure sh) -> In x (v0d_pool sh).
+Proof. intro H. apply poolv_closure. exact H. Qed.
+Lemma v0d_pool_param sh x : In x (map S ["o"; "dict_factory"; "exclude"; "skip_defaults"]%string) -> In x (v0d_pool sh).
+Proof. intro H. apply poolv_params. exact H. Qed.
+Lemma v0d_pool_skip sh i f : nth_error (d_fields sh) i = Some f -> In (skip_name i) (v0d_pool sh).
+Proof.
+  intro H. apply poolv_bvar. unfold v0d_bvar.
+  exact (in_mapi (fun i (_ : v0d_field) => skip_name i) _ i f H).
+Qed.
+Lemma v0d_pool_result sh : In (S "result") (v0d_pool sh).
+Proof. apply poolv_binds. unfold v0d_binds0. now left. Qed.
+
+Lemma asdict_call_loads sh v :
+  incl (e_loads v) (v0d_pool sh) -> incl (e_loads (asdict_call (d_env sh) v)) (v0d_pool sh).
+Proof.
+  intro Hv. unfold asdict_call, call. cbn [e_loads]. rewrite eapps_loads, flat_map_app.
+  cbn [flat_map e_loads N_ app]. rewrite ?app_nil_r.
+  apply incl_cons; [apply v0d_pool_closure, v0d_clo_base; cbn [map]; find_in|].
+  split_app.
+  - exact Hv.
+  - apply incl_cons; [apply v0d_pool_param; cbn [map]; find_in|].
+    apply incl_cons; [apply v0d_pool_closure, v0d_clo_base; cbn [map]; find_in|].
+    apply incl_cons; [apply v0d_pool_closure, v0d_clo_base; cbn [map]; find_in|].
+    apply incl_cons; [apply v0d_pool_closure, v0d_clo_base; cbn [map]; find_in|].
+    apply incl_nil_l.
+  - destruct (d_env sh) eqn:E; smp; [|apply incl_nil_l].
+    apply incl_cons; [|apply incl_nil_l]. apply v0d_pool_closure, v0d_clo_env. exact E.
+Qed.
+
+Lemma obj_attr_loads sh f : incl (e_loads (obj_attr f)) (v0d_pool sh).
+Proof. cbn. apply incl_cons; [|apply incl_nil_l]. apply v0d_pool_param. cbn [map]. find_in. Qed.
+
+Lemma skip_expr_loads sh s f op :
+  (dskip_closure s = true -> In op (v0d_pool sh)) -> incl (e_loads (skip_expr s f op)) (v0d_pool sh).
+Proof.
+  intro H. destruct s; cbn [skip_expr]; try apply obj_attr_loads.
+  rewrite eapps_loads. cbn [flat_map e_loads app]. 
+  apply incl_app; [apply obj_attr_loads|]. apply incl_cons; [|apply incl_nil_l]. apply H. reflexivity.
+Qed.
+
+Lemma v0d_skip_default_pool sh i f :
+  nth_error (d_fields sh) i = Some f ->
+  incl (flat_map s_loads (v0d_skip_default_stmt sh i f)) (v0d_pool sh).
+Proof.
+  intro Hn. unfold v0d_skip_default_stmt. destruct (df_has_default f) eqn:HD; [|apply incl_nil_l].
+  cbn [when flat_map]. rewrite ?app_nil_r.
+  destruct (dskip_on (d_skip_defaults_if sh)) eqn:HS; cbn [s_loads e_loads]; rewrite eapps_loads;
+    cbn [flat_map e_loads app]; rewrite ?app_nil_r.
+  - apply incl_cons; [exact (v0d_pool_skip sh i f Hn)|].
+    apply skip_expr_loads. intro HC. apply v0d_pool_closure, v0d_clo_sdv. exact HC.
+  - apply incl_cons; [exact (v0d_pool_skip sh i f Hn)|].
+    apply incl_app; [apply obj_attr_loads|]. apply incl_cons; [|apply incl_nil_l].
+    apply v0d_pool_closure. apply (v0d_clo_field sh i f _ Hn). unfold v0d_field_closure.
+    rewrite HD, HS. apply in_or_app. left. now left.
+Qed.
+
+Lemma v0d_field_stmt_pool sh i f :
+  v0d_unsafe sh = false ->
+  nth_error (d_fields sh) i = Some f ->
+  incl (flat_map s_loads (v0d_field_stmt sh i f)) (v0d_pool sh).
+Proof.
+  intros HU Hn. assert (Hf : In f (d_fields sh)) by (eapply nth_error_In; eauto).
+  unfold v0d_field_stmt.
+  set (guard := if dskip_on (df_skip f) then _ else _).
+  assert (HG : (match df_key f with DKey _ | DPath _ => true | _ => false end = true) ->
+               incl (e_loads guard) (v0d_pool sh)).
+  { intro HK. subst guard. destruct (dskip_on (df_skip f)) eqn:E1.
+    - rewrite eapps_loads. cbn [flat_map e_loads app]. rewrite ?app_nil_r.
+      apply incl_cons; [exact (v0d_pool_skip sh i f Hn)|].
+      apply skip_expr_loads. intro HC. apply v0d_pool_closure. apply (v0d_clo_field sh i f _ Hn).
+      unfold v0d_field_closure. apply in_or_app. right.
+      destruct (df_key f); try discriminate HK; rewrite HC; now left.
+    - destruct (dskip_on (d_meta_skip sh)) eqn:E2.
+      + rewrite eapps_loads. cbn [flat_map e_loads app]. rewrite ?app_nil_r.
+        apply incl_cons; [exact (v0d_pool_skip sh i f Hn)|].
+        apply skip_expr_loads. intro HC. apply v0d_pool_closure, v0d_clo_skipv. exact HC.
+      + cbn. apply incl_cons; [exact (v0d_pool_skip sh i f Hn)|apply incl_nil_l]. }
+  destruct (df_key f) as [k|comps| |] eqn:EK.
+  - cbn [flat_map s_loads]. rewrite ?app_nil_r. cbn [app]. rewrite ?app_nil_r.
+    apply incl_app; [apply HG; reflexivity|].
+    unfold call at 1. cbn [e_loads]. rewrite eapps_loads. cbn [flat_map e_loads N_ app]. rewrite ?app_nil_r.
+    apply incl_cons; [apply v0d_pool_result|].
+    apply asdict_call_loads, obj_attr_loads.
+  - cbn [flat_map s_loads]. rewrite ?app_nil_r. cbn [app]. rewrite ?app_nil_r.
+    apply incl_app; [apply HG; reflexivity|].
+    cbn [e_loads N_]. rewrite strs_loads. cbn [app].
+    apply incl_cons.
+    + apply poolv_binds. unfold v0d_binds0. apply in_or_app. right. apply in_or_app. left.
+      assert (HP : v0d_has_paths sh = true).
+      { unfold v0d_has_paths. apply existsb_exists. exists f. split; [exact Hf|]. now rewrite EK. }
+      rewrite HP. now left.
+    + apply asdict_call_loads, obj_attr_loads.
+  - apply incl_nil_l.
+  - cbn [flat_map s_loads]. rewrite ?app_nil_r. cbn [app]. rewrite ?app_nil_r.
+    assert (HC : v0d_has_catch sh = true).
+    { unfold v0d_has_catch. apply existsb_exists. exists f. split; [exact Hf|]. now rewrite EK. }
+    split_app.
+    + destruct (df_has_default f) eqn:HD.
+      * rewrite eapps_loads. cbn [flat_map e_loads app]. rewrite ?app_nil_r.
+        apply incl_app; [apply obj_attr_loads|].
+        apply incl_cons; [|apply incl_cons; [exact (v0d_pool_skip sh i f Hn)|apply incl_nil_l]].
+        apply v0d_pool_closure. apply (v0d_clo_field sh i f _ Hn). unfold v0d_field_closure.
+        apply in_or_app. left. rewrite HD.
+        assert (HS : dskip_on (d_skip_defaults_if sh) = false).
+        { unfold v0d_unsafe in HU. apply andb_false_iff in HU as [HU|HU]; [exact HU|].
+          exfalso. assert (existsb (fun f => is_catch (df_key f) && df_has_default f) (d_fields sh) = true).
+          { apply existsb_exists. exists f. split; [exact Hf|]. now rewrite EK, HD. }
+          congruence. }
+        rewrite HS. now left.
+      * cbn. apply incl_cons; [exact (v0d_pool_skip sh i f Hn)|apply incl_nil_l].
+    + unfold call at 1. cbn [e_loads]. rewrite eapps_loads. cbn [flat_map e_loads app].
+      rewrite app_nil_r. apply obj_attr_loads.
+    + unfold call at 1. cbn [e_loads]. rewrite eapps_loads. cbn [flat_map e_loads N_ app]. rewrite ?app_nil_r.
+      apply incl_cons; [apply v0d_pool_result|].
+      apply incl_cons.
+      * apply poolv_binds. unfold v0d_binds0. rewrite HC. do 2 (apply in_or_app; right). now left.
+      * apply asdict_call_loads. cbn [e_loads N_]. apply incl_cons; [|apply incl_nil_l].
+        apply poolv_binds. unfold v0d_binds0. rewrite HC. do 2 (apply in_or_app; right). right. now left.
+Qed.
+
+Lemma incl_loads_concat_mapi {A} (g : nat -> A -> list stmt) l R :
+  (forall i x, nth_error l i = Some x -> incl (flat_map s_loads (g i x)) R) ->
+  incl (flat_map s_loads (List.concat (mapi g l))) R.
+Proof.
+  intros H y Hy. apply in_flat_map in Hy as (s & Hs & Hy). apply in_concat in Hs as (ss & Hss & Hs).
+  apply mapi_from_in in Hss as (i & x & Hn & ->). apply (H i x Hn). apply in_flat_map. eauto.
+Qed.
+
+Lemma v0d_clo_pre sh : d_pre sh = true -> In (S "__pre_dict__") (v0d_closure sh).
+Proof. intro H. unfold v0d_closure. rewrite H. do 4 (apply in_or_app; right). apply in_or_app. left. now left. Qed.
+Lemma v0d_clo_nested sh : v0d_has_paths sh = true -> In (S "NestedDict") (v0d_closure sh).
+Proof. intro H. unfold v0d_closure. rewrite H. do 5 (apply in_or_app; right). apply in_or_app. left. now left. Qed.
+Lemma v0d_pool_paths sh : v0d_has_paths sh = true -> In (S "paths") (v0d_pool sh).
+Proof.
+  intro H. apply poolv_binds. unfold v0d_binds0. rewrite H. apply in_or_app. right. apply in_or_app. left. now left.
+Qed.
+
+Lemma v0d_body_pool sh : v0d_unsafe sh = false -> incl (s_loads (v0d_body sh)) (v0d_pool sh).
+Proof.
+  intro HU. unfold v0d_body. rewrite sseq_loads. repeat rewrite flat_map_app. split_app.
+  - destruct (d_pre sh) eqn:E; [|apply incl_nil_l]. smp.
+    apply incl_cons; [apply v0d_pool_closure, v0d_clo_pre; exact E|].
+    apply incl_cons; [apply v0d_pool_param; cbn [map]; find_in|apply incl_nil_l].
+  - smp. apply incl_nil_l.
+  - destruct (v0d_has_paths sh) eqn:E; [|apply incl_nil_l]. smp.
+    apply incl_cons; [apply v0d_pool_closure, v0d_clo_nested; exact E|apply incl_nil_l].
+  - destruct (d_fields sh) as [|f0 fr] eqn:EF; [apply incl_nil_l|]. rewrite <- EF.
+    repeat rewrite flat_map_app. split_app.
+    + cbn [flat_map s_loads e_loads N_ app]. rewrite ?app_nil_r.
+      apply incl_cons; [apply v0d_pool_param; cbn [map]; find_in|].
+      apply sseq_mapi_loads. intros i f Hn. cbn [s_loads e_loads]. rewrite eapps_loads. smp.
+      apply incl_cons; [apply v0d_pool_param; cbn [map]; find_in|apply incl_nil_l].
+    + destruct (List.concat (mapi (v0d_skip_default_stmt sh) (d_fields sh))) as [|s0 sr] eqn:ESD;
+        [apply incl_nil_l|]. rewrite <- ESD.
+      cbn [flat_map s_loads e_loads N_ app]. rewrite ?app_nil_r.
+      apply incl_cons; [apply v0d_pool_param; cbn [map]; find_in|].
+      rewrite sseq_loads. apply incl_loads_concat_mapi. intros i f Hn.
+      now apply v0d_skip_default_pool.
+    + apply incl_loads_concat_mapi. intros i f Hn. now apply v0d_field_stmt_pool.
+  - destruct (v0d_has_paths sh) eqn:E; [|apply incl_nil_l]. smp.
+    apply incl_cons; [apply v0d_pool_result|].
+    apply incl_cons; [apply v0d_pool_paths; exact E|].
+    apply incl_cons; [apply v0d_pool_result|].
+    apply incl_cons; [apply v0d_pool_paths; exact E|apply incl_nil_l].
+  - destruct (d_tag sh) as [[k t]|]; smp.
+    + apply incl_cons; [apply v0d_pool_param; cbn [map]; find_in|].
+      apply incl_cons; [apply v0d_pool_result|].
+      apply incl_cons; [apply v0d_pool_result|].
+      apply incl_cons; [apply v0d_pool_result|apply incl_nil_l].
+    + apply incl_cons; [apply v0d_pool_param; cbn [map]; find_in|].
+      apply incl_cons; [apply v0d_pool_result|apply incl_nil_l].
+Qed.
+
+Lemma v0d_header_ok sh : incl (e_loads (fn_header (v0_dump_fn sh))) (allowed [] (v0_dump_fn sh)).
+Proof.
+  cbn [fn_header v0_dump_fn]. unfold v0d_header, allowed. cbn [fn_closure fn_globals v0_dump_fn].
+  rewrite eapps_loads, flat_map_app. split_app.
+  - destruct (d_env sh); cbn [when flat_map e_loads N_ app]; [|apply incl_nil_l].
+    apply incl_cons; [|apply incl_nil_l]. apply in_or_app. right. now left.
+  - cbn [flat_map e_loads N_ app].
+    assert (HB : forall x, In x py_builtins -> In x (v0d_closure sh ++ when (d_env sh) [S "T"] ++ [] ++ py_builtins)).
+    { intros x Hx. do 3 (apply in_or_app; right). exact Hx. }
+    apply incl_cons; [apply HB; vm_compute; tauto|].
+    apply incl_cons; [apply HB; vm_compute; tauto|].
+    apply incl_cons; [|apply incl_nil_l].
+    apply in_or_app. left. unfold v0d_closure. do 7 (apply in_or_app; right). now left.
+Qed.
+
+Theorem v0_dump_closed sh : v0d_unsafe sh = false -> closedb [] (v0_dump_fn sh) = true.
+Proof.
+  intro HU. destruct (v0d_binds_ok sh) as [H1 H2].
+  apply (closed_from_poolv (v0d_binds0 sh) (v0d_bvar sh)); auto.
+  - now apply v0d_body_pool.
+  - apply v0d_header_ok.
+Qed.
+
+(* the unsafe shape: a catch-all field with a default under Meta.skip_defaults_if *)
+Definition v0d_witness : v0d_shape :=
+  {| d_fields := [ {| df_name := S "x"; df_has_default := false; df_key := DKey (S "x"); df_skip := SkNone |};
+                   {| df_name := S "extra"; df_has_default := true; df_key := DCatchAll; df_skip := SkNone |} ];
+     d_env := false; d_pre := false; d_meta_skip := SkNone; d_skip_defaults_if := SkInline; d_tag := None |}.
+
+Theorem v0_dump_refuted :
+  v0d_unsafe v0d_witness = true /\ closedb [] (v0_dump_fn v0d_witness) = false /\
+  In (S "_default_1") (free_names (v0_dump_fn v0d_witness)) /\
+  ~ In (S "_default_1") (allowed [] (v0_dump_fn v0d_witness)).
+Proof.
+  split; [reflexivity|]. split; [vm_compute; reflexivity|]. split.
+  - apply mem_str_In. vm_compute. reflexivity.
+  - intro H. apply mem_str_In in H. vm_compute in H. discriminate.
+Qed.
+
+(* ======================================================================== *)
+(* EnvWizard: __init__ and dict                                               *)
+(* ======================================================================== *)
+Definition env_nonempty (sh : env_shape) : bool := match e_fields sh with [] => false | _ => true end.
+Definition env_binds0 (sh : env_shape) : list pstr :=
+  [S "_vars"] ++ when (env_nonempty sh) (map S ["_name"; "_env_var"; "_var_name"; "e"]%string).
+
+Definition env_init_raw (sh : env_shape) : fn :=
+  {| fn_name := S "__init__";
+     fn_params := env_fixed_params ++ map ef_name (e_fields sh);
+     fn_header := env_init_header sh;
+     fn_body := env_init_body sh;
+     fn_closure := env_closure sh;
+     fn_globals := env_globals sh |}.
+
+(* fixed parameters, bound names, closure, builtins, globals, field parameters *)
+Definition env_pool (sh : env_shape) : list pstr :=
+  env_fixed_params ++ env_binds0 sh ++ env_closure sh ++ py_builtins ++ env_globals sh ++ map ef_name (e_fields sh).
+
+Lemma env_binds0_ok sh : incl (env_binds0 sh) (s_binds (env_init_body sh)).
+Proof.
+  unfold env_binds0, env_nonempty, env_init_body. rewrite sseq_binds. repeat rewrite flat_map_app. split_app.
+  - apply incl_cons; [|apply incl_nil_l]. apply in_or_app. left. destruct (e_env_file sh); cbn -[S In incl]; find_in.
+  - destruct (e_fields sh) as [|f0 fr]; [apply incl_nil_l|].
+    intros x Hx. apply in_or_app. right. apply in_or_app. left.
+    cbn [when map] in Hx. cbn [flat_map s_binds map sseq env_field_stmt app].
+    cbn -[S In incl env_field_stmt]. cbn [In] in Hx.
+    destruct Hx as [<-|[<-|[<-|[<-|[]]]]]; find_in.
+Qed.
+
+Lemma env_pool_avail sh : incl (env_pool sh) (avail [] (env_init_raw sh)).
+Proof.
+  intros x Hx. unfold env_pool in Hx. unfold avail, fn_locals, allowed.
+  cbn [fn_params fn_body fn_closure fn_globals env_init_raw].
+  apply in_app_or in Hx as [Hx|Hx].
+  { apply in_or_app. left. apply in_or_app. left. apply in_or_app. now left. }
+  apply in_app_or in Hx as [Hx|Hx].
+  { apply in_or_app. left. apply in_or_app. right. now apply env_binds0_ok. }
+  apply in_app_or in Hx as [Hx|Hx].
+  { apply in_or_app. right. apply in_or_app. now left. }
+  apply in_app_or in Hx as [Hx|Hx].
+  { apply in_or_app. right. do 3 (apply in_or_app; right). exact Hx. }
+  apply in_app_or in Hx as [Hx|Hx].
+  { apply in_or_app. right. apply in_or_app. right. apply in_or_app. now left. }
+  apply in_or_app. left. apply in_or_app. left. apply in_or_app. now right.
+Qed.
+
+Lemma env_pool_fixed sh x : In x env_fixed_params -> In x (env_pool sh).
+Proof. intro H. unfold env_pool. apply in_or_app. now left. Qed.
+Lemma env_pool_binds sh x : In x (env_binds0 sh) -> In x (env_pool sh).
+Proof. intro H. unfold env_pool. apply in_or_app. right. apply in_or_app. now left. Qed.
+Lemma env_pool_closure sh x : In x (env_closure sh) -> In x (env_pool sh).
+Proof. intro H. unfold env_pool. do 2 (apply in_or_app; right). apply in_or_app. now left. Qed.
+Lemma env_pool_globals sh x : In x (env_globals sh) -> In x (env_pool sh).
+Proof. intro H. unfold env_pool. do 4 (apply in_or_app; right). apply in_or_app. now left. Qed.
+Lemma env_pool_field sh f : In f (e_fields sh) -> In (ef_name f) (env_pool sh).
+Proof. intro H. unfold env_pool. do 5 (apply in_or_app; right). now apply in_map. Qed.
+Lemma env_glob_fixed sh x :
+  In x (map S ["MissingVars"; "add"; "cls"; "fields_ordered"; "handle_err"; "MISSING"]%string) -> In x (env_globals sh).
+Proof. intro H. unfold env_globals. apply in_or_app. now left. Qed.
+Lemma env_glob_field sh f y : In f (e_fields sh) -> In y (env_field_globals f) -> In y (env_globals sh).
+Proof.
+  intros Hf Hy. unfold env_globals. do 2 (apply in_or_app; right). apply in_or_app. left.
+  apply in_flat_map. eauto.
+Qed.
+Lemma env_clo_fixed sh x :
+  In x (map S ["Env"; "ParseError"; "field_names"; "get_env"; "lookup_exact"]%string) -> In x (env_closure sh).
+Proof. intro H. unfold env_closure. apply in_or_app. now left. Qed.
+
+Lemma env_field_stmt_pool sh f :
+  In f (e_fields sh) -> incl (s_loads (env_field_stmt f)) (env_pool sh).
+Proof.
+  intro Hf.
+  assert (HN : env_nonempty sh = true).
+  { unfold env_nonempty. destruct (e_fields sh); [contradiction|reflexivity]. }
+  assert (B : forall x, In x (map S ["_name"; "_env_var"; "_var_name"; "e"]%string) -> In x (env_pool sh)).
+  { intros x Hx. apply env_pool_binds. unfold env_binds0. rewrite HN. apply in_or_app. now right. }
+  assert (V : In (S "_vars") (env_pool sh)).
+  { apply env_pool_binds. unfold env_binds0. apply in_or_app. left. now left. }
+  assert (PF : In (S "_env_prefix") (env_pool sh)) by (apply env_pool_fixed; vm_compute; tauto).
+  assert (SF : In (S "self") (env_pool sh)) by (apply env_pool_fixed; vm_compute; tauto).
+  assert (MS : In (S "MISSING") (env_pool sh)) by (apply env_pool_globals, env_glob_fixed; cbn [map]; find_in).
+  assert (NM : In (ef_name f) (env_pool sh)) by now apply env_pool_field.
+  assert (LK : In (S "lookup_exact") (env_pool sh)) by (apply env_pool_closure, env_clo_fixed; cbn [map]; find_in).
+  assert (GE : In (S "get_env") (env_pool sh)) by (apply env_pool_closure, env_clo_fixed; cbn [map]; find_in).
+  assert (AD : In (S "add") (env_pool sh)) by (apply env_pool_globals, env_glob_fixed; cbn [map]; find_in).
+  assert (VN : In (S "_var_name") (env_pool sh)) by (apply B; cbn [map]; find_in).
+  assert (NA : In (S "_name") (env_pool sh)) by (apply B; cbn [map]; find_in).
+  assert (EV : In (S "_env_var") (env_pool sh)) by (apply B; cbn [map]; find_in).
+  assert (PA : In (parser_name (ef_name f)) (env_pool sh)).
+  { apply env_pool_globals, (env_glob_field sh f); [exact Hf|]. unfold env_field_globals. right. now left. }
+  assert (TP : In (tp_name (ef_name f)) (env_pool sh)).
+  { apply env_pool_globals, (env_glob_field sh f); [exact Hf|]. unfold env_field_globals. now left. }
+  unfold env_field_stmt. destruct (ef_var f) as [v|]; destruct (ef_default f) eqn:ED;
+    cbn -[S In incl env_pool parser_name tp_name edflt_name];
+    repeat (apply incl_cons;
+            [solve [ assumption
+                   | apply env_pool_globals, (env_glob_field sh f); [exact Hf|]; unfold env_field_globals;
+                     rewrite ED; apply in_or_app; right; now left ] |]);
+    apply incl_nil_l.
+Qed.
+
+Lemma env_init_body_pool sh : incl (s_loads (env_init_body sh)) (env_pool sh).
+Proof.
+  unfold env_init_body. rewrite sseq_loads. repeat rewrite flat_map_app. split_app.
+  - assert (F : forall x, In x env_fixed_params -> In x (env_pool sh)) by apply env_pool_fixed.
+    assert (EN : In (S "Env") (env_pool sh)) by (apply env_pool_closure, env_clo_fixed; cbn [map]; find_in).
+    assert (R1 : In (S "_reload") (env_pool sh)) by (apply F; vm_compute; tauto).
+    assert (R2 : In (S "_secrets_dir") (env_pool sh)) by (apply F; vm_compute; tauto).
+    assert (R3 : In (S "_env_file") (env_pool sh)) by (apply F; vm_compute; tauto).
+    destruct (e_env_file sh) eqn:EF; cbn -[S In incl env_pool];
+      repeat (apply incl_cons;
+              [solve [ assumption
+                     | apply env_pool_globals; unfold env_globals; rewrite EF; apply in_or_app; right;
+                       apply in_or_app; left; now left ] |]);
+      apply incl_nil_l.
+  - destruct (e_fields sh) as [|f0 fr] eqn:EFS; [apply incl_nil_l|]. rewrite <- EFS.
+    assert (HN : env_nonempty sh = true) by (unfold env_nonempty; now rewrite EFS).
+    cbn [flat_map s_loads app]. rewrite app_nil_r.
+    assert (B : forall x, In x (map S ["_name"; "_env_var"; "_var_name"; "e"]%string) -> In x (env_pool sh)).
+    { intros x Hx. apply env_pool_binds. unfold env_binds0. rewrite HN. apply in_or_app. now right. }
+    assert (H1 : In (S "ParseError") (env_pool sh)) by (apply env_pool_closure, env_clo_fixed; cbn [map]; find_in).
+    assert (H2 : In (S "handle_err") (env_pool sh)) by (apply env_pool_globals, env_glob_fixed; cbn [map]; find_in).
+    assert (H3 : In (S "e") (env_pool sh)) by (apply B; cbn [map]; find_in).
+    assert (H4 : In (S "cls") (env_pool sh)) by (apply env_pool_globals, env_glob_fixed; cbn [map]; find_in).
+    assert (H5 : In (S "_name") (env_pool sh)) by (apply B; cbn [map]; find_in).
+    assert (H6 : In (S "_env_prefix") (env_pool sh)) by (apply env_pool_fixed; vm_compute; tauto).
+    assert (H7 : In (S "_env_var") (env_pool sh)) by (apply B; cbn [map]; find_in).
+    split_app.
+    1: { rewrite sseq_loads, flat_map_map. apply incl_flat_map. intros f Hf. now apply env_field_stmt_pool. }
+    all: cbn -[S In incl env_pool]; repeat (apply incl_cons; [assumption|]); apply incl_nil_l.
+  - cbn -[S In incl env_pool].
+    assert (V : In (S "_vars") (env_pool sh)).
+    { apply env_pool_binds. unfold env_binds0. apply in_or_app. left. now left. }
+    apply incl_cons; [exact V|].
+    apply incl_cons; [apply env_pool_globals, env_glob_fixed; cbn [map]; find_in|].
+    apply incl_cons; [apply env_pool_globals, env_glob_fixed; cbn [map]; find_in|].
+    apply incl_cons; [exact V|apply incl_nil_l].
+Qed.
+
+Lemma env_allowed_closure sh f x : fn_closure f = env_closure sh -> In x (env_closure sh) -> In x (allowed [] f).
+Proof. intros E H. unfold allowed. rewrite E. apply in_or_app. now left. Qed.
+Lemma env_allowed_globals sh f x : fn_globals f = env_globals sh -> In x (env_globals sh) -> In x (allowed [] f).
+Proof. intros E H. unfold allowed. rewrite E. apply in_or_app. right. apply in_or_app. now left. Qed.
+
+Lemma env_init_header_ok sh : incl (e_loads (env_init_header sh)) (allowed [] (env_init_raw sh)).
+Proof.
+  unfold env_init_header. rewrite eapps_loads. repeat rewrite flat_map_app. split_app.
+  - destruct (e_prefix sh); cbn; apply incl_nil_l.
+  - destruct (e_secrets_dir sh) eqn:E; [|apply incl_nil_l]. cbn [when flat_map e_loads N_ app].
+    apply incl_cons; [|apply incl_nil_l]. apply (env_allowed_closure sh); [reflexivity|].
+    unfold env_closure. rewrite E. apply in_or_app. right. apply in_or_app. left. now left.
+  - intros y Hy. apply in_flat_map in Hy as (e & He & Hy). apply in_flat_map in He as (f & Hf & He).
+    cbn [In] in He. destruct He as [<-|[<-|[]]]; cbn [e_loads N_ In] in Hy; destruct Hy as [<-|[]].
+    + apply (env_allowed_globals sh); [reflexivity|]. apply (env_glob_field sh f); [exact Hf|]. now left.
+    + apply (env_allowed_globals sh); [reflexivity|]. apply env_glob_fixed. cbn [map]. find_in.
+  - cbn [flat_map e_loads app]. apply incl_cons; [|apply incl_nil_l].
+    apply (env_allowed_closure sh); [reflexivity|]. unfold env_closure. do 2 (apply in_or_app; right). now left.
+Qed.
+
+Theorem env_init_closed sh f : env_init_fn sh = Some f -> closedb [] f = true.
+Proof.
+  unfold env_init_fn. destruct (env_splice_ok sh); [|discriminate]. intro H. inversion H; subst f.
+  change (closedb [] (env_init_raw sh) = true). apply closedb_intro.
+  - intros x Hx. apply env_pool_avail. now apply env_init_body_pool.
+  - apply env_init_header_ok.
+Qed.
+
+Theorem env_dict_closed sh : closedb [] (env_dict_fn sh) = true.
+Proof.
   apply closedb_intro.
-  - intros x Hx. apply v0l_need_avail. now apply v0l_body_need.
+  - cbn [fn_body env_dict_fn s_loads]. rewrite eapps_loads.
+    intros y Hy. apply in_flat_map in Hy as (e & He & Hy). apply in_flat_map in He as (f & Hf & He).
+    cbn [In] in He. destruct He as [<-|[<-|[]]]; cbn [e_loads N_ In] in Hy; [contradiction|].
+    destruct Hy as [<-|[]]. unfold fn_locals. cbn [fn_params env_dict_fn]. apply in_or_app. left. now left.
+  - cbn [fn_header env_dict_fn e_loads]. apply incl_cons; [|apply incl_nil_l].
+    apply (env_allowed_closure sh); [reflexivity|]. unfold env_closure. do 2 (apply in_or_app; right). right. now left.
+Qed.
+
+Theorem env_splice_refuted : exists sh, env_init_fn sh = None.
+Proof.
+  exists {| e_fields := [ {| ef_name := S "x"; ef_var := Some (S "A" ++ [c_dq] ++ S "B"); ef_default := EdNone |} ];
+            e_env_file := false; e_secrets_dir := false; e_prefix := None |}.
+  vm_compute. reflexivity.
+Qed.
+
+(* ======================================================================== *)
+(* v1 engine, load                                                            *)
+(* ======================================================================== *)
+Definition v1_nonempty (sh : v1_shape) : bool := match v_fields sh with [] => false | _ => true end.
+Definition v1_unknown_on (sh : v1_shape) : bool := match v_unknown sh with UkNone => false | _ => true end.
+
+Definition v1_binds0 (sh : v1_shape) : list pstr :=
+  when (v1_has_defaults sh) [S "init_kwargs"] ++ when (v1_pre_assign sh) [S "i"]
+  ++ when (v1_nonempty sh) [S "e"] ++ when (v1_unknown_on sh) [S "extra_keys"].
+(* everything the per-field statements bind: field, v1, i, __<name>, tp, f *)
+Definition v1_bvar (sh : v1_shape) : list pstr := flat_map s_binds (mapi (v1_field_stmt sh) (v_fields sh)).
+Definition v1_pool (batch : list pstr) (sh : v1_shape) : list pstr :=
+  poolv (v1_binds0 sh) (v1_bvar sh) batch (v1_load_fn sh).
+
+(* names a type's load expression needs besides its own variable and walrus targets *)
+Fixpoint v1_ty_need (t : vty) (fi : nat) : list pstr :=
+  match t with
+  | VInt => map S ["int"; "float"; "str"; "as_int"]%string
+  | VStr => [S "str"]
+  | VFloat => [S "float"]
+  | VBool => [S "__TRUTHY"; S "str"]
+  | VEnum n => [v1_type_local n fi]
+  | VData n => [v1_fn_name n]
+  | VList t' => v1_ty_need t' fi
+  end.
+
+Lemma v1_expr_loads t fi : forall k,
+  incl (e_loads (v1_expr t fi k)) (v_var k :: e_binds (v1_expr t fi k) ++ v1_ty_need t fi).
+Proof.
+  induction t as [| | | |n|n|t IH]; intro k; cbn [v1_expr].
+  1-6: cbn -[S In incl v_var v1_type_local v1_fn_name];
+       repeat (apply incl_cons; [cbn -[S v_var v1_type_local v1_fn_name]; tauto|]); apply incl_nil_l.
+  cbn [e_loads e_binds v1_ty_need N_]. apply incl_cons; [now left|].
+  intros x Hx. apply filter_In in Hx as [Hx Hn]. apply (IH (Datatypes.S k)) in Hx.
+  apply not_in_true in Hn. cbn [In] in Hx. destruct Hx as [<-|Hx].
+  - exfalso. apply Hn. now left.
+  - right. exact Hx.
+Qed.
+
+Lemma v1_need_closure t fi x :
+  In x (v1_ty_need t fi) ->
+  In x py_builtins \/ In x (v1_ty_closure t fi) \/ In x (v1_ty_calls t).
+Proof.
+  induction t as [| | | |n|n|t IH]; cbn [v1_ty_need v1_ty_closure v1_ty_calls]; intro H.
+  - cbn [map In] in H. destruct H as [<-|[<-|[<-|[<-|[]]]]].
+    + left. vm_compute. tauto.
+    + left. vm_compute. tauto.
+    + left. vm_compute. tauto.
+    + right. left. now left.
+  - destruct H as [<-|[]]. left. vm_compute. tauto.
+  - destruct H as [<-|[]]. left. vm_compute. tauto.
+  - destruct H as [<-|[<-|[]]]. + right. left. now left. + left. vm_compute. tauto.
+  - right. left. exact H.
+  - right. right. exact H.
+  - now apply IH.
+Qed.
+
+Lemma v1_clo_base sh x : In x (map S ["cls"; "fields"]%string) -> In x (v1_closure sh).
+Proof. intro H. unfold v1_closure. apply in_or_app. now left. Qed.
+Lemma v1_clo_aliases sh : v1_pre_assign sh = true -> In (S "aliases") (v1_closure sh).
+Proof. intro H. unfold v1_closure. rewrite H. apply in_or_app. right. apply in_or_app. left. now left. Qed.
+Lemma v1_clo_safe_get sh : v1_has_paths sh = true -> In (S "safe_get") (v1_closure sh).
+Proof. intro H. unfold v1_closure. rewrite H. do 2 (apply in_or_app; right). apply in_or_app. left. now left. Qed.
+Lemma v1_clo_pre sh : v_pre sh = true -> In (S "__pre_from_dict__") (v1_closure sh).
+Proof. intro H. unfold v1_closure. rewrite H. do 3 (apply in_or_app; right). apply in_or_app. left. now left. Qed.
+Lemma v1_clo_ty sh fi f x :
+  nth_error (v_fields sh) fi = Some f -> In x (v1_ty_closure (vf_ty f) fi) -> In x (v1_closure sh).
+Proof.
+  intros Hn Hx. unfold v1_closure. do 4 (apply in_or_app; right). apply in_or_app. left.
+  exact (in_concat_mapi (fun fi f => v1_ty_closure (vf_ty f) fi) _ fi f x Hn Hx).
+Qed.
+Lemma v1_clo_unknown sh x :
+  In x (match v_unknown sh with UkNone => [] | UkRaise => [S "UnknownKeysError"] | UkWarn => [S "LOG"] end) ->
+  In x (v1_closure sh).
+Proof. intro H. unfold v1_closure. do 5 (apply in_or_app; right). exact H. Qed.
+
+Lemma v1_pool_clo batch sh x : In x (v1_closure sh) -> In x (v1_pool batch sh).
+Proof. intro H. apply poolv_closure. exact H. Qed.
+Lemma v1_pool_glob batch sh x : In x v1_globals -> In x (v1_pool batch sh).
+Proof. intro H. apply poolv_globals. exact H. Qed.
+Lemma v1_pool_o batch sh : In (S "o") (v1_pool batch sh).
+Proof. apply poolv_params. now left. Qed.
+Lemma v1_pool_stmt batch sh fi f x :
+  nth_error (v_fields sh) fi = Some f -> In x (s_binds (v1_field_stmt sh fi f)) -> In x (v1_pool batch sh).
+Proof.
+  intros Hn Hx. apply poolv_bvar. unfold v1_bvar. apply in_flat_map.
+  exists (v1_field_stmt sh fi f). split; [|exact Hx]. exact (in_mapi (v1_field_stmt sh) _ fi f Hn).
+Qed.
+
+(* what every per-field statement binds, whatever the key kind *)
+Lemma v1_stmt_binds_field sh fi f : In (S "field") (s_binds (v1_field_stmt sh fi f)).
+Proof. unfold v1_field_stmt. destruct (vf_key f); cbn [sseq s_binds]; now left. Qed.
+
+Lemma v1_stmt_binds_v1 sh fi f : In (S "v1") (s_binds (v1_field_stmt sh fi f)).
+Proof.
+  unfold v1_field_stmt. destruct (vf_key f) as [|a|a l|p]; cbn [sseq s_binds app map eapps e_binds];
+    try (right; now left).
+Qed.
+
+Lemma v1_stmt_binds_i sh fi f : v1_pre_assign sh = true -> In (S "i") (s_binds (v1_field_stmt sh fi f)).
+Proof.
+  intro HP. unfold v1_field_stmt. rewrite HP. cbn [when app sseq].
+  destruct (vf_key f) as [|a|a l|p]; cbn [sseq s_binds app]; rewrite ?app_nil_r; find_in.
+Qed.
+
+Lemma v1_stmt_binds_store sh fi f x :
+  In x (when (negb (vf_has_default f)) [v1_field_local (vf_name f)] ++ e_binds (v1_expr (vf_ty f) fi 1)) ->
+  In x (s_binds (v1_field_stmt sh fi f)).
+Proof.
+  intro Hx.
+  assert (HS : In x (s_binds (if vf_has_default f
+                               then SAssign [] (eapps [N_ "init_kwargs"; N_ "field"]) (v1_expr (vf_ty f) fi 1)
+                               else SAssign [v1_field_local (vf_name f)] ENil (v1_expr (vf_ty f) fi 1)))).
+  { destruct (vf_has_default f); cbn [negb when app s_binds eapps e_binds N_] in *.
+    - exact Hx.
+    - destruct Hx as [<-|Hx]; [now left|]. right. exact Hx. }
+  unfold v1_field_stmt.
+  set (store := if vf_has_default f then _ else _) in *.
+  assert (HB : In x (s_binds (sseq (when (v1_pre_assign sh) [SAug (S "i") ENil] ++ [store])))).
+  { rewrite sseq_binds, flat_map_app. apply in_or_app. right. cbn [flat_map]. rewrite app_nil_r. exact HS. }
+  destruct (vf_key f) as [|a|a l|p]; cbn [sseq s_binds app]; rewrite ?app_nil_r; find_in.
+Qed.
+
+Lemma v1_field_stmt_pool batch sh fi f :
+  incl (v1_calls sh) batch ->
+  nth_error (v_fields sh) fi = Some f ->
+  incl (s_loads (v1_field_stmt sh fi f)) (v1_pool batch sh).
+Proof.
+  intros HB Hn. assert (Hf : In f (v_fields sh)) by (eapply nth_error_In; eauto).
+  assert (F1 : In (S "field") (v1_pool batch sh)) by (apply (v1_pool_stmt batch sh fi f _ Hn), v1_stmt_binds_field).
+  assert (F2 : In (S "v1") (v1_pool batch sh)) by (apply (v1_pool_stmt batch sh fi f _ Hn), v1_stmt_binds_v1).
+  assert (F3 : In (S "o") (v1_pool batch sh)) by apply v1_pool_o.
+  assert (F4 : In (S "MISSING") (v1_pool batch sh)) by (apply v1_pool_glob; vm_compute; tauto).
+  (* the load expression *)
+  assert (FE : incl (e_loads (v1_expr (vf_ty f) fi 1)) (v1_pool batch sh)).
+  { intros x Hx. apply v1_expr_loads in Hx. destruct Hx as [<-|Hx]; [exact F2|].
+    apply in_app_or in Hx as [Hx|Hx].
+    - apply (v1_pool_stmt batch sh fi f _ Hn), v1_stmt_binds_store. apply in_or_app. now right.
+    - destruct (v1_need_closure _ _ _ Hx) as [H|[H|H]].
+      + now apply poolv_builtin.
+      + apply v1_pool_clo. exact (v1_clo_ty sh fi f x Hn H).
+      + apply poolv_batch. apply HB. unfold v1_calls. apply in_flat_map. eauto. }
+  assert (FS : incl (s_loads (if vf_has_default f
+                               then SAssign [] (eapps [N_ "init_kwargs"; N_ "field"]) (v1_expr (vf_ty f) fi 1)
+                               else SAssign [v1_field_local (vf_name f)] ENil (v1_expr (vf_ty f) fi 1)))
+                    (v1_pool batch sh)).
+  { destruct (vf_has_default f) eqn:HD; cbn [s_loads eapps e_loads N_ app].
+    - apply incl_cons.
+      + apply poolv_binds. unfold v1_binds0.
+        assert (HH : v1_has_defaults sh = true).
+        { unfold v1_has_defaults. apply existsb_exists. eauto. }
+        rewrite HH. apply in_or_app. left. now left.
+      + apply incl_cons; [exact F1|]. exact FE.
+    - exact FE. }
+  assert (FB : incl (s_loads (sseq (when (v1_pre_assign sh) [SAug (S "i") ENil] ++
+                 [if vf_has_default f
+                  then SAssign [] (eapps [N_ "init_kwargs"; N_ "field"]) (v1_expr (vf_ty f) fi 1)
+                  else SAssign [v1_field_local (vf_name f)] ENil (v1_expr (vf_ty f) fi 1)])))
+                    (v1_pool batch sh)).
+  { rewrite sseq_loads, flat_map_app. apply incl_app.
+    - destruct (v1_pre_assign sh) eqn:HP; [|apply incl_nil_l]. cbn [when flat_map s_loads e_loads app].
+      apply incl_cons; [|apply incl_nil_l].
+      apply (v1_pool_stmt batch sh fi f _ Hn), v1_stmt_binds_i. exact HP.
+    - cbn [flat_map]. rewrite app_nil_r. exact FS. }
+  unfold v1_field_stmt.
+  destruct (vf_key f) as [|a|a l|p] eqn:EK; cbn [sseq s_loads e_loads app get_missing call eapps N_];
+    rewrite ?app_nil_r.
+  all: rewrite ?strs_loads; cbn [app].
+  1,2: repeat first [ apply incl_nil_l | exact FB | apply incl_cons; [assumption|]
+                    | match goal with |- incl (_ ++ _) _ => apply incl_app end ].
+  - apply incl_app; [|exact FB].
+    rewrite eapps_loads, flat_map_map. apply incl_flat_map. intros a' _.
+    cbn [eapps e_loads get_missing call N_ app].
+    repeat (apply incl_cons; [assumption|]). apply incl_nil_l.
+  - apply incl_cons.
+    { apply v1_pool_clo, v1_clo_safe_get. unfold v1_has_paths. apply existsb_exists. exists f. now rewrite EK. }
+    repeat first [ apply incl_nil_l | exact FB | apply incl_cons; [assumption|]
+                 | match goal with |- incl (_ ++ _) _ => apply incl_app end ].
+Qed.
+
+Lemma v1_binds_ok sh :
+  incl (v1_binds0 sh) (s_binds (fn_body (v1_load_fn sh))) /\
+  incl (v1_bvar sh) (s_binds (fn_body (v1_load_fn sh))).
+Proof.
+  cbn [fn_body v1_load_fn]. unfold v1_body. rewrite sseq_binds. repeat rewrite flat_map_app. split.
+  - unfold v1_binds0. split_app.
+    + destruct (v1_has_defaults sh); [|apply incl_nil_l]. intros x Hx.
+      apply in_or_app. right. apply in_or_app. left. exact Hx.
+    + destruct (v1_pre_assign sh); [|apply incl_nil_l]. intros x Hx.
+      do 2 (apply in_or_app; right). apply in_or_app. left. exact Hx.
+    + unfold v1_nonempty. destruct (v_fields sh) as [|f0 fr]; [apply incl_nil_l|]. intros x Hx.
+      do 3 (apply in_or_app; right). apply in_or_app. left.
+      cbn [flat_map s_binds opt_list app]. cbn [when In] in Hx. destruct Hx as [<-|[]]. find_in.
+    + unfold v1_unknown_on. destruct (v_unknown sh); [apply incl_nil_l| |]; intros x Hx;
+        do 4 (apply in_or_app; right); apply in_or_app; left; cbn [when In] in Hx; destruct Hx as [<-|[]];
+        cbn -[S In]; find_in.
+  - unfold v1_bvar. destruct (v_fields sh) as [|f0 fr] eqn:EF; [apply incl_nil_l|]. rewrite <- EF.
+    intros x Hx. do 3 (apply in_or_app; right). apply in_or_app. left.
+    cbn [flat_map s_binds]. rewrite sseq_binds, flat_map_app. find_in.
+Qed.
+
+Lemma v1_body_pool batch sh :
+  incl (v1_calls sh) batch -> incl (s_loads (v1_body sh)) (v1_pool batch sh).
+Proof.
+  intro HB.
+  assert (Fo : In (S "o") (v1_pool batch sh)) by apply v1_pool_o.
+  assert (Fc : In (S "cls") (v1_pool batch sh)) by (apply v1_pool_clo, v1_clo_base; cbn [map]; find_in).
+  assert (Ff : In (S "fields") (v1_pool batch sh)) by (apply v1_pool_clo, v1_clo_base; cbn [map]; find_in).
+  assert (Fr : In (S "re_raise") (v1_pool batch sh)) by (apply v1_pool_glob; vm_compute; tauto).
+  assert (Fm : In (S "raise_missing_fields") (v1_pool batch sh)) by (apply v1_pool_glob; vm_compute; tauto).
+  assert (B1 : In (S "isinstance") (v1_pool batch sh)) by (apply poolv_builtin; vm_compute; tauto).
+  assert (B2 : In (S "dict") (v1_pool batch sh)) by (apply poolv_builtin; vm_compute; tauto).
+  assert (B3 : In (S "Exception") (v1_pool batch sh)) by (apply poolv_builtin; vm_compute; tauto).
+  assert (B4 : In (S "locals") (v1_pool batch sh)) by (apply poolv_builtin; vm_compute; tauto).
+  assert (B5 : In (S "len") (v1_pool batch sh)) by (apply poolv_builtin; vm_compute; tauto).
+  assert (B6 : In (S "set") (v1_pool batch sh)) by (apply poolv_builtin; vm_compute; tauto).
+  assert (B7 : In (S "UnboundLocalError") (v1_pool batch sh)) by (apply poolv_builtin; vm_compute; tauto).
+  assert (Fi : v1_pre_assign sh = true -> In (S "i") (v1_pool batch sh)).
+  { intro H. apply poolv_binds. unfold v1_binds0. rewrite H. apply in_or_app. right. apply in_or_app. left. now left. }
+  assert (Fa : v1_pre_assign sh = true -> In (S "aliases") (v1_pool batch sh)).
+  { intro H. apply v1_pool_clo, v1_clo_aliases. exact H. }
+  unfold v1_body. rewrite sseq_loads. repeat rewrite flat_map_app. split_app.
+  - destruct (v_pre sh) eqn:E; [|apply incl_nil_l]. cbn -[S In incl poolv v1_pool].
+    apply incl_cons; [apply v1_pool_clo, v1_clo_pre; exact E|].
+    apply incl_cons; [exact Fo|apply incl_nil_l].
+  - destruct (v1_has_defaults sh); cbn; apply incl_nil_l.
+  - destruct (v1_pre_assign sh); cbn; apply incl_nil_l.
+  - destruct (v_fields sh) as [|f0 fr] eqn:EF.
+    + destruct (v1_pre_assign sh) eqn:EP; [|apply incl_nil_l]. cbn -[S In incl poolv v1_pool].
+      repeat (apply incl_cons; [assumption|]). apply incl_nil_l.
+    + rewrite <- EF. cbn [flat_map s_loads app]. rewrite ?app_nil_r.
+      assert (Fe : In (S "e") (v1_pool batch sh)).
+      { apply poolv_binds. unfold v1_binds0, v1_nonempty. rewrite EF.
+        do 2 (apply in_or_app; right). apply in_or_app. left. now left. }
+      assert (Ffd : In (S "field") (v1_pool batch sh)).
+      { apply (v1_pool_stmt batch sh 0 f0); [now rewrite EF|apply v1_stmt_binds_field]. }
+      split_app.
+      * rewrite sseq_loads, flat_map_app. apply incl_app.
+        -- destruct (v_tag_key sh) as [k|]; [|apply incl_nil_l].
+           destruct (v1_pre_assign sh) eqn:EP; [|apply incl_nil_l]. cbn -[S In incl poolv v1_pool].
+           apply incl_cons; [exact Fo|]. apply incl_cons; [now apply Fi|apply incl_nil_l].
+        -- intros y Hy. apply in_flat_map in Hy as (s & Hs & Hy).
+           apply mapi_from_in in Hs as (i & f & Hn & ->). exact (v1_field_stmt_pool batch sh i f HB Hn y Hy).
+      * cbn -[S In incl poolv v1_pool]. repeat (apply incl_cons; [assumption|]). apply incl_nil_l.
+      * cbn -[S In incl poolv v1_pool]. repeat (apply incl_cons; [assumption|]). apply incl_nil_l.
+  - destruct (v_unknown sh) eqn:EU; [apply incl_nil_l| |].
+    + assert (EP : v1_pre_assign sh = true) by (unfold v1_pre_assign; now rewrite EU).
+      assert (Fx : In (S "extra_keys") (v1_pool batch sh)).
+      { apply poolv_binds. unfold v1_binds0, v1_unknown_on. rewrite EU. do 3 (apply in_or_app; right). now left. }
+      assert (Fu : In (S "UnknownKeysError") (v1_pool batch sh)).
+      { apply v1_pool_clo, v1_clo_unknown. rewrite EU. now left. }
+      pose proof (Fi EP). pose proof (Fa EP).
+      cbn -[S In incl poolv v1_pool]. repeat (apply incl_cons; [assumption|]). apply incl_nil_l.
+    + assert (EP : v1_pre_assign sh = true) by (unfold v1_pre_assign; now rewrite EU).
+      assert (Fx : In (S "extra_keys") (v1_pool batch sh)).
+      { apply poolv_binds. unfold v1_binds0, v1_unknown_on. rewrite EU. do 3 (apply in_or_app; right). now left. }
+      assert (Fu : In (S "LOG") (v1_pool batch sh)).
+      { apply v1_pool_clo, v1_clo_unknown. rewrite EU. now left. }
+      pose proof (Fi EP). pose proof (Fa EP).
+      cbn -[S In incl poolv v1_pool]. repeat (apply incl_cons; [assumption|]). apply incl_nil_l.
+  - cbn [flat_map s_loads e_loads call N_ app]. rewrite ?app_nil_r.
+    apply incl_cons; [exact Fc|]. apply incl_app.
+    + rewrite eapps_loads, flat_map_app. apply incl_app.
+      * rewrite flat_map_map. apply incl_flat_map. intros f Hf. apply filter_In in Hf as [Hf HD].
+        cbn [e_loads]. apply incl_cons; [|apply incl_nil_l].
+        destruct (in_nth_error f _ Hf) as (i & Hi).
+        apply (v1_pool_stmt batch sh i f _ Hi), v1_stmt_binds_store. rewrite HD. apply in_or_app. left. now left.
+      * destruct (v1_has_defaults sh) eqn:EH; [|apply incl_nil_l]. cbn [when flat_map e_loads N_ app].
+        apply incl_cons; [|apply incl_nil_l]. apply poolv_binds. unfold v1_binds0. rewrite EH. apply in_or_app. left. now left.
+    + cbn -[S In incl poolv v1_pool]. repeat (apply incl_cons; [assumption|]). apply incl_nil_l.
+Qed.
+
+Theorem v1_load_closed batch sh : incl (v1_calls sh) batch -> closedb batch (v1_load_fn sh) = true.
+Proof.
+  intro HB. destruct (v1_binds_ok sh) as [H1 H2].
+  apply (closed_from_poolv (v1_binds0 sh) (v1_bvar sh)); auto.
+  - now apply v1_body_pool.
   - cbn. apply incl_nil_l.
 Qed.
